@@ -44,15 +44,6 @@ class IndexedRecordIOSplitter : public InputSplitBase {
   bool NextChunk(Blob *out_chunk) override;
   void BeforeFirst(void) override;
   bool NextBatch(Blob *out_chunk, size_t n_records) override;
-  bool NextRecord(Blob *out_rec) override {
-    while (!ExtractNextRecord(out_rec, &tmp_chunk_)) {
-      if (!tmp_chunk_.Load(this, buffer_size_)) {
-        return false;
-      }
-      ++current_index_;
-    }
-    return true;
-  }
   void SetRandomSeed(size_t seed) {
     rnd_.seed(kRandMagic + seed);
   }
